@@ -1,6 +1,47 @@
 """C19 (continued): pywbem/_cim_http.py::wbem_request - what the observers (operation recorders, last_raw_request /
 last_raw_reply, statistics) are given, and that the credentials of the connection are not among it.
 
+wbem_request() is executed symbolically from its real text; the observers (recorder.stage_http_request /
+stage_http_response1 / stage_http_response2), the transport (conn.session.post of requests) and the two exception-mapping
+helpers are cut at trusted stubs.  What is shown for ALL connections (any URL, credentials present or not, any number of
+recorders), ALL request texts, ALL CIM-XML extension headers without an 'Authorization' entry and ALL server behaviours the
+stub of session.post can show (a response with any status / headers / body, a requests exception, an urllib3 exception):
+
+  1. SECRECY  every recorder.stage_http_request(...) call is handed a headers mapping without the key 'Authorization', and
+              that mapping is exactly the caller's CIM-XML extension headers (so nothing computed from conn.creds is in it);
+              the Basic credentials still go where they belong: into the headers of session.post, for a server target
+              with credentials.
+  2. STAGED == EXCHANGED  the payload staged at the recorders and the body handed to session.post are both
+              b'<?xml version="1.0" encoding="utf-8" ?>\\n' + req_data.encode('utf-8'); url / connection id / method are
+              the connection's; the reply staged with stage_http_response2 and the reply returned are the .content of
+              the response object session.post returned.  (last_raw_request / last_raw_reply / debug fields are NOT set
+              by wbem_request - its callers _imethodcall/_methodcall set them from request_data and from the value
+              returned here.)
+  3. OUTCOME  every path ends in a return or in ConnectionError / TimeoutError / AuthError / HTTPError / HeaderParseError,
+              after exactly one session.post; the stubs of the observers return normally (that they do is the subject of
+              the LogOperationRecorder contracts in C19.py) - so with or without recorders the same exits are reachable,
+              and nothing else.
+
+Modelling decisions (each one narrows what is covered; none hides an obligation):
+  * cimxml_headers (documented: iterable of (name, value) pairs; all three callers pass a list of pairs) is represented by
+    the mapping dict(cimxml_headers) - the only way the function looks at it (DEBUG_EXCEPTIONS is False).  The engine has no
+    dict(list of pairs); dict(mapping) is a copy, which is what dict(list of pairs) is in terms of the mapping.
+    cimxml_headers=None is not covered (no caller passes it).
+  * conn.operation_recorders (a property returning tuple(self._operation_recorders)) is declared as a field holding the
+    list: same elements, same truth value; the engine has no tuple(symbolic list).
+  * the function is verified in slices that run in parallel (see SLICES; the slicing conditions are exhaustive).
+
+Not stated (out of the contract language's reach, not of the code's): that the status / reason / headers staged with
+stage_http_response1 are those of the response (a callee precondition can name the caller's PARAMETERS only, and the
+response object is a local); the text LogOperationRecorder.stage_http_request hands to its logger (the header text is
+' '.join(f'{k}:{v!r}' ...): `!r` and join over a symbolic mapping are opaque strings in the engine, so "the logged text
+does not contain the credential" cannot be expressed - the masking is exercised by the bounded stand-in of C19 only).
+
+NEEDS ENGINE SUPPORT that /verif/pyvc did not have when this file was written (see the report of the agent; prototype
+patches were tried on a scratch copy): bytes literal + bytes (uninterpreted, additive length), str.encode as a function
+of the text, float / literal, the exception classes of requests / urllib3 as external classes, {literal dict}.update(map).
+Without them the function is reported OUT-OF-REACH at `b'<?xml ...' + req_body` (never a violation).
+
 Shared definitions can be imported from the module contracts_C19 (the file contracts/C19.py while it is being loaded)."""
 from pyvc.contract import Contract, Raises, LoopSpec
 from pyvc.values import *   # noqa
@@ -13,32 +54,102 @@ CLASS_SPECS = {'Response': {'headers': Ref('Headers'), 'status_code': Int, 'reas
 LEMMAS = []
 
 H = 'pywbem/_cim_http.py::'
+R = 'pywbem/_recorder.py::BaseOperationRecorder.'
 BYTES = Ref('bytes')
-CONN = Obj('WBEMConnection', _url=Str, _creds=Opt(TupleOf(Str, Str)), _timeout=Opt(Int), _conn_id=Opt(Str),
-           operation_recorders=ListOf(('ref', 'BaseOperationRecorder')), session=Ref('Session'))
-HDRS = Rec(CIMOperation=Str, CIMMethod=Str, CIMObject=Str)
+RECORDER = ('ref', 'BaseOperationRecorder')
 
-stage_req_c = Contract('pywbem/_recorder.py::BaseOperationRecorder.stage_http_request', trusted=True, raises={},
-                       requires=[('the-headers-handed-to-the-recorders-carry-no-credentials',
-                                  "'Authorization' not in headers")])
-stage_resp1_c = Contract('pywbem/_recorder.py::BaseOperationRecorder.stage_http_response1', trusted=True, raises={})
-stage_resp2_c = Contract('pywbem/_recorder.py::BaseOperationRecorder.stage_http_response2', trusted=True, raises={})
 
+def conn_sort(creds):
+    # ghosts: _g_staged_reply = the reply most recently staged at a recorder; _g_sent = number of session.post calls
+    return Obj('WBEMConnection', _url=Str, _creds=creds, _timeout=Opt(Int), _conn_id=Str,
+               operation_recorders=ListOf(RECORDER), session=Ref('Session'),
+               _g_staged_reply=BYTES, _g_sent=Int)
+
+
+BODY = "b'<?xml version=\"1.0\" encoding=\"utf-8\" ?>\\n' + caller_req_data.encode('utf-8')"
+
+# ---- the observers: trusted stubs that return normally; their PRECONDITIONS are the obligations of wbem_request
+stage_req_c = Contract(
+    R + 'stage_http_request', trusted=True, raises={},
+    requires=[('the-headers-handed-to-the-recorders-carry-no-credentials', "'Authorization' not in headers"),
+              ('the-recorders-get-exactly-the-extension-headers-of-the-caller', 'headers == caller_cimxml_headers'),
+              ('the-payload-staged-is-the-request-body', f'payload == {BODY}'),
+              ('staged-under-the-url-and-id-of-the-connection',
+               "conn_id == caller_conn._conn_id and url == caller_conn._url and method == 'POST' and version == 11 and "
+               "target == ('/cimom' if caller_target_type == 'server' else '')")],
+    notes='observer stub: returns normally (LogOperationRecorder.stage_http_request: proved in C19.py)')
+stage_resp1_c = Contract(R + 'stage_http_response1', trusted=True, raises={},
+                         notes='observer stub: returns normally (LogOperationRecorder.stage_http_response1: proved in C19.py)')
+stage_resp2_c = Contract(R + 'stage_http_response2', trusted=True, raises={},
+                         requires=[('what-is-staged-as-the-reply-is-bytes-or-the-reset-value-None',
+                                    'payload is None or isinstance(payload, bytes)')],
+                         modifies=['caller_conn._g_staged_reply'],
+                         ensures=[('remembers-what-was-staged',
+                                   'implies(isinstance(payload, bytes), caller_conn._g_staged_reply == payload)')],
+                         notes='observer stub: returns normally (LogOperationRecorder.stage_http_response2: proved in C19.py); '
+                               'ghost: the reply that was staged last')
+
+# ---- the transport and library helpers
 b64_c = Contract('external::base64.b64encode', sig=['s'], returns=BYTES, trusted=True, raises={},
                  ensures=[('base64-text-is-ASCII', 'valid_utf8(result)')],
                  notes='A-LIB: base64.b64encode(bytes) returns ASCII bytes and does not raise')
-post_c = Contract('external::Session.post', sig=['self', 'url', 'data=None', 'headers=None', 'timeout=None'],
-                  returns=Ref('Response'), trusted=True,
-                  raises={'requests.exceptions.RequestException': Raises(), 'urllib3.exceptions.HTTPError': Raises()})
+unquote_c = Contract('external::urllib.parse.unquote', sig=['string'], returns=Str, trusted=True, raises={},
+                     notes='A-LIB: urllib.parse.unquote(str) returns a str and does not raise (errors="replace")')
+post_c = Contract(
+    'external::Session.post', sig=['self', 'url', 'data=None', 'headers=None', 'timeout=None'],
+    returns_ghost='g_resp', trusted=True,
+    requires=[('the-body-sent-is-the-body-staged', f'data == {BODY}'),
+              ('sent-to-the-url-of-the-connection',
+               "url == caller_conn._url + ('/cimom' if caller_target_type == 'server' else '')"),
+              ('credentials-go-to-the-server-and-only-there',
+               "('Authorization' in headers) == (caller_target_type == 'server' and caller_conn._creds is not None)")],
+    modifies=['caller_conn._g_sent'],
+    ensures=[('one-request-sent', 'caller_conn._g_sent == old(caller_conn._g_sent) + 1')],
+    raises={'requests.exceptions.RequestException': Raises(),
+            'requests.packages.urllib3.exceptions.HTTPError': Raises()},
+    notes='A-LIB: requests.Session.post returns a Response (any status, headers, body: the ghost g_resp) or raises a '
+          'requests.exceptions.RequestException or (observed, hence handled by pywbem) an urllib3 HTTPError')
+EXC_RET = Union(Obj('ConnectionError'), Obj('TimeoutError'))
+req_exc_c = Contract(H + 'pywbem_requests_exception', returns=EXC_RET, trusted=True, raises={},
+                     notes='assumed: maps a requests exception to a new pywbem ConnectionError or TimeoutError and returns it '
+                           '(message surgery with regular expressions; no observer is involved)')
+u3_exc_c = Contract(H + 'pywbem_urllib3_exception', returns=EXC_RET, trusted=True, raises={},
+                    notes='assumed: maps an urllib3 exception to a new pywbem ConnectionError or TimeoutError and returns it')
 
-CONTRACTS.append(Contract(
-    H + 'wbem_request',
-    params={'conn': CONN, 'req_data': Str, 'cimxml_headers': HDRS, 'target_type': Str},
-    callees={'stage_http_request': stage_req_c, 'stage_http_response1': stage_resp1_c,
-             'stage_http_response2': stage_resp2_c, 'base64.b64encode': b64_c, 'post': post_c},
-    loops={1: LoopSpec(target='recorder', types={'recorder': Ref('BaseOperationRecorder')}),
-           2: LoopSpec(target='recorder', types={'recorder': Ref('BaseOperationRecorder')}),
-           3: LoopSpec(target='recorder', types={'recorder': Ref('BaseOperationRecorder')})},
-    ensures=[],
-    raises={k: Raises() for k in ('ConnectionError', 'TimeoutError', 'AuthError', 'HTTPError', 'HeaderParseError')},
-))
+CALLEES = {'stage_http_request': stage_req_c, 'stage_http_response1': stage_resp1_c, 'stage_http_response2': stage_resp2_c,
+           'base64.b64encode': b64_c, 'post': post_c, 'pywbem_requests_exception': req_exc_c,
+           'pywbem_urllib3_exception': u3_exc_c, 'urllib.parse.unquote': unquote_c}
+
+RECS = 'len(conn.operation_recorders) > 0'
+SENT_ONCE = ('exactly-one-request-was-sent', 'conn._g_sent == old(conn._g_sent) + 1')
+DOCUMENTED = {k: Raises() for k in ('ConnectionError', 'TimeoutError')}
+DOCUMENTED.update({k: Raises(post=[SENT_ONCE]) for k in ('AuthError', 'HTTPError', 'HeaderParseError')})
+LOOPS = {
+    1: LoopSpec(target='recorder', types={'recorder': Ref('BaseOperationRecorder')}, modifies=['conn._g_staged_reply']),
+    2: LoopSpec(target='recorder', types={'recorder': Ref('BaseOperationRecorder')}),
+    3: LoopSpec(target='recorder', types={'recorder': Ref('BaseOperationRecorder')}, modifies=['conn._g_staged_reply'],
+                invariant=[('every-recorder-so-far-got-the-reply', 'implies(_i > 0, conn._g_staged_reply == resp_body)')]),
+}
+ENSURES = [
+    SENT_ONCE,
+    ('the-reply-returned-is-the-content-of-the-response', 'result[0] == g_resp.content'),
+    ('the-reply-staged-is-the-reply-returned', f'implies({RECS}, conn._g_staged_reply == result[0])'),
+]
+
+# ---- slices (exhaustive: target_type == 'server' x creds None / tuple x recorders none / some; target_type != 'server')
+SLICES = [
+    ('server, credentials, recorders', Opt(TupleOf(Str, Str)), Lit('server'), ['conn._creds is not None', RECS]),
+    ('server, credentials, no recorders', Opt(TupleOf(Str, Str)), Lit('server'),
+     ['conn._creds is not None', f'not ({RECS})']),
+    ('server, no credentials, recorders', Lit(None), Lit('server'), [RECS]),
+    ('server, no credentials, no recorders', Lit(None), Lit('server'), [f'not ({RECS})']),
+    ('listener target', Opt(TupleOf(Str, Str)), Str, ["target_type != 'server'"]),
+]
+for _label, _creds, _target, _req in SLICES:
+    CONTRACTS.append(Contract(
+        H + 'wbem_request', label=_label,
+        params={'conn': conn_sort(_creds), 'req_data': Str, 'cimxml_headers': MapOf('str', 'str'), 'target_type': _target},
+        ghosts={'g_resp': Ref('Response')},
+        requires=["'Authorization' not in cimxml_headers"] + _req,
+        callees=CALLEES, loops=LOOPS, ensures=ENSURES, raises=DOCUMENTED, max_paths=600,
+    ))
